@@ -2,6 +2,11 @@ NOTES = ("All checks: ./check <ID> --tier quick|thorough, VERIF_SEED respected, 
          "fix: commits in /repo are listed in known_findings.json as fixed entries.")
 NOT_APPLICABLE = {}
 CHECKS = {
+ "C02": {
+  "technique": "Hypothesis property-based testing: edit-script generated (previous text, new value) pairs, noisy renderer, oracle = re-execution of the rewritten module with inline-snapshot inactive",
+  "text": "Generated programs with 1-4 sites whose previous argument is a noisy rendering of an edit-script mutation of the observed value (or missing); one in-process run with create+fix; the rewritten module must pass when re-executed with inline-snapshot inactive and every site argument must satisfy the observed comparisons. Exploration.",
+  "note": "no user-controlled parts in the previous text; bounded value size; every noisy rendering is validated by the harness (eval == intended previous value) before use",
+ },
  "C01": {
   "technique": "Hypothesis property-based testing of generated programs with a read-back oracle (re-execution with inline-snapshot inactive) on an in-process driver and on real pytest sessions",
   "text": "Generated programs (1-3 empty sites, five operations, six placements, loops, shared module-level sites) over a recursive value universe are created in process and read back by evaluating the written argument in the re-executed module and recomputing the observed comparisons on the plain value; a second arm does it through real pytest sessions (create, then disable) including externals and HasRepr import insertion. Exploration: held on everything generated.",
